@@ -216,3 +216,28 @@ fn c01e_lzma2_reader_state_reset() {
     kani::cover!(b[0] < 0xA0, "no reset");
     core::mem::forget(r);
 }
+
+// C06-A (raw chunk sizes, cheap enough to be replayed): an uncompressed chunk header (control 1 or 2) with any size
+// field: no panic, size = field + 1 (1..=65536), three bytes consumed.
+//@ {"name":"c06a_lzma2_raw_chunk_size","props":["C06","C01"],"obligation":"C06-A","timeout":900,"mem_gb":9,"functions":["lzma2_reader::LZMA2Reader::decode_chunk_header"],"bounds":"control byte 1 or 2 (symbolic), two arbitrary size bytes; reader flags symbolic; unwind 6","assumes":[]}
+#[kani::proof]
+#[kani::unwind(6)]
+#[kani::stub(crate::decoder::LZMADecoder::new, crate::decoder::verif_stubs_dec::verif_havoc_decoder)]
+fn c06a_lzma2_raw_chunk_size() {
+    let mut b: [u8; 3] = kani::any();
+    kani::assume(b[0] == 1 || b[0] == 2);
+    let mut src = Src::<3>::full(b);
+    let ndr: bool = kani::any();
+    let mut r = lzma2_on(&mut src, kani::any(), ndr);
+    let res = r.decode_chunk_header();
+    if b[0] == 2 && ndr {
+        assert!(res.is_err());
+    } else {
+        assert!(res.is_ok());
+        assert!(!r.is_lzma_chunk);
+        assert!(r.uncompressed_size == (((b[1] as usize) << 8) | b[2] as usize) + 1, "C06-A: stored chunk size is the 16-bit field + 1");
+        assert!(r.inner.pos == 3);
+    }
+    kani::cover!(b[1] == 0xFF && b[2] == 0xFF, "largest stored chunk (65536 bytes)");
+    core::mem::forget(r);
+}
